@@ -32,6 +32,8 @@ pub fn resolve_local<CT>(
     context: &mut Context<'_, CT>,
     question: &Question,
 ) -> Result<LocalResolutionResult, ResolutionError> {
+    #[cfg(resolved_verif)]
+    crate::verif::gate("local.lookup");
     let _span = tracing::error_span!("resolve_local", %question).entered();
 
     if context.at_recursion_limit() {
